@@ -115,9 +115,6 @@ fn diff(a: &Behaviour, b: &Behaviour, ins: &[String]) -> String {
             return format!("on input {:?} the cached scanner yields (type,start,end,mode after) {:?}, the uncached one {:?}", ins[k], x, y);
         }
     }
-    if a.dump != b.dump {
-        return "compiled automata differ (dump)".into();
-    }
     "?".into()
 }
 
@@ -161,6 +158,7 @@ pub fn run(tier: Tier) -> ! {
     let mut samples = Samples::new(6);
     let mut key_conformance = 0usize;
     let mut key_mismatch = 0usize;
+    let mut dump_differs = 0usize;
     'bfs: while let Some(s) = queue.pop_front() {
         n_states += 1;
         for k in 0..n {
@@ -212,7 +210,12 @@ pub fn run(tier: Tier) -> ! {
                         (None, true, _) => viol.add("", || Violation { key: String::new(), summary: format!("build() of the failing configuration {:?} returned a scanner after {:?} were built", fam[k].0, s.iter().map(|&m| &fam[m].0).collect::<Vec<_>>()), replay: describe("Ok instead of Err") }),
                         (Some(_), false, _) => viol.add("", || Violation { key: String::new(), summary: format!("build() of {:?} returned an error after {:?} were built; build_uncached() succeeds", fam[k].0, s.iter().map(|&m| &fam[m].0).collect::<Vec<_>>()), replay: describe("Err instead of Ok") }),
                         (Some(want), true, Some(got)) => {
-                            if *want != got {
+                            // behaviour decides; a structurally different but equivalent automaton
+                            // (e.g. another state numbering) is not a violation, only counted
+                            if want.dump != got.dump {
+                                dump_differs += 1;
+                            }
+                            if want.names != got.names || want.streams != got.streams {
                                 let d = diff(&got, want, &ins);
                                 viol.add("", || Violation { key: String::new(), summary: format!("build() of {:?} after {:?}: {d}", fam[k].0, s.iter().map(|&m| &fam[m].0).collect::<Vec<_>>()), replay: describe(&d) });
                             }
@@ -271,11 +274,12 @@ pub fn run(tier: Tier) -> ! {
     cov.insert("samples".into(), json!(samples.items));
     cov.insert("evaluations".into(), json!(n_trans));
     cov.insert("distinct_nontrivial".into(), json!(hits + misses));
-    cov.insert("rule".into(), json!("state = set of successfully built family members in the process-wide cache (reached by clear + builds in ascending order; the hook's key count is compared with the model's set size at every transition = conformance of the state abstraction); transition = build() of any member, compared with build_uncached() by dump, mode names and token streams on {a,b,c}^<=4; non-trivial = the built member is buildable (hit or miss)"));
+    cov.insert("rule".into(), json!("state = set of successfully built family members in the process-wide cache (reached by clear + builds in ascending order; the hook's key count is compared with the model's set size at every transition = conformance of the state abstraction); transition = build() of any member, compared with build_uncached() by mode names and token streams (type, span, mode after every token) on {a,b,c}^<=4; the automata dumps are compared as well but only counted; non-trivial = the built member is buildable (hit or miss)"));
     cov.insert("exhaustive".into(), json!(true));
     cov.insert("family".into(), json!(fam.iter().map(|f| json!({"label": f.0, "builds": f.2})).collect::<Vec<_>>()));
     cov.insert("state_space".into(), json!(format!("all subsets of the {} buildable members of size <= {max_size}{}", good.len(), if tier == Tier::Thorough { " plus the full powerset of the first 9" } else { "" })));
     cov.insert("transitions_where_the_cache_key_set_differs_from_the_model".into(), json!(key_mismatch));
+    cov.insert("transitions_where_cached_and_uncached_automata_differ_structurally_(informational)".into(), json!(dump_differs));
     cov.insert("cache_hits".into(), json!(hits));
     cov.insert("cache_misses".into(), json!(misses));
     cov.insert("failing_builds".into(), json!(fails));
